@@ -870,7 +870,9 @@ class Interp:
         items = self._elts(e.elts, env)
         if deep_concrete(items):
             return set(items)
-        raise Undecided("set with symbolic elements")
+        from .npmodel import SymSet
+
+        return SymSet.build(self, items)
 
     def _elts(self, elts, env):
         out = []
@@ -1084,7 +1086,9 @@ class Interp:
         out = self.e_ListComp(e, env)
         if deep_concrete(out):
             return set(out)
-        raise Undecided("set comprehension with symbolic elements")
+        from .npmodel import SymSet
+
+        return SymSet.build(self, out)
 
     def e_DictComp(self, e, env):
         out = {}
